@@ -17,7 +17,7 @@ use litep2p::{
         libp2p::kademlia::{
             verif::{
                 ConnectionType, KademliaMessage, KademliaPeer, Key, SchemaMessage, SchemaPeer, SchemaRecord, VerifKadDump,
-                VerifKademlia, VerifProbe, VerifProbeEntry,
+                VerifKademlia, VerifProbe, VerifProbeEntry, VerifStoreDump,
             },
             ConfigBuilder, ContentProvider, IncomingRecordValidationMode, KademliaEvent, KademliaHandle, Quorum, Record,
             RecordKey, RoutingTableUpdateMode,
@@ -43,6 +43,9 @@ use std::{
     time::{Duration, Instant},
 };
 use tokio::io::{AsyncRead, AsyncWrite, ReadBuf};
+
+#[path = "c16_handle.rs"]
+mod handle_stream;
 
 const NADDR: usize = 8;
 const LOCAL: u64 = 99;
@@ -840,17 +843,6 @@ impl Sys {
         }
     }
 
-    fn publisher_code(&self, p: &Option<PeerId>) -> u64 {
-        match p {
-            None => 0,
-            Some(p) if *p == mk_peer(500) => 1,
-            Some(p) => match self.idx(p) {
-                UNKNOWN => 999,
-                i => i + 2,
-            },
-        }
-    }
-
     /// A record as the user hands it to the handle: `len` bytes LOCAL_REC, expiry `expc - 1` ticks from now.
     fn user_record(&self, rk: u64, len: u64, publ: u64, expc: u64) -> Record {
         Record {
@@ -858,14 +850,6 @@ impl Sys {
             value: vec![LOCAL_REC; len as usize],
             publisher: self.publisher_of(publ),
             expires: if expc == 0 { None } else { Some(Instant::now() + Duration::from_millis((expc - 1) * TICK_MS)) },
-        }
-    }
-
-    fn key_label(k: &[u8]) -> u64 {
-        match k {
-            [a, b, 7, 7] => *a as u64 + 256 * *b as u64,
-            [250, 1, 2] => 250,
-            _ => 999,
         }
     }
 
@@ -1684,73 +1668,7 @@ impl Sys {
                 out.extend([self.idx(&node.peer), node.has_addresses as u64, conn]);
             }
         }
-        // the store: records, provider records per key in stored order, local_providers, refresh futures
-        let now = Instant::now();
-        let ticks = |d: Duration| (d.as_millis() as u64 + TICK_MS / 2) / TICK_MS;
-        let rel = |exp: Option<Instant>| -> [u64; 2] {
-            match exp {
-                None => [2, 0],
-                Some(t) if t <= now => [0, ticks(now - t)],
-                Some(t) => [1, ticks(t - now)],
-            }
-        };
-        let st = &d.store;
-        let mut recs: Vec<[u64; 5]> = st
-            .records
-            .iter()
-            .map(|r| {
-                let e = rel(r.expires);
-                [
-                    Self::key_label(r.key.as_ref()),
-                    r.value.first().copied().unwrap_or(0) as u64 + 256 * self.publisher_code(&r.publisher),
-                    r.value.len() as u64,
-                    e[0],
-                    e[1],
-                ]
-            })
-            .collect();
-        recs.sort();
-        out.push(recs.len() as u64);
-        for r in recs {
-            out.extend(r);
-        }
-        let mut pk: Vec<(u64, Vec<u64>)> = st
-            .provider_keys
-            .iter()
-            .map(|(k, ps)| {
-                let mut v = vec![ps.len() as u64];
-                for p in ps {
-                    let e = rel(Some(p.expires));
-                    v.extend([self.idx(&p.provider), p.addresses.len() as u64, e[0], e[1]]);
-                }
-                (Self::key_label(k.as_ref()), v)
-            })
-            .collect();
-        pk.sort();
-        out.push(pk.len() as u64);
-        for (k, v) in pk {
-            out.push(k);
-            out.extend(v);
-        }
-        let mut qs: Vec<[u64; 2]> = st
-            .local_providers
-            .iter()
-            .map(|(k, p, q)| {
-                let okp = p.peer == mk_peer(500) && p.addresses.is_empty();
-                let code = match q {
-                    Quorum::All => 0,
-                    Quorum::One => 1,
-                    Quorum::N(n) => n.get() as u64 + 1,
-                };
-                [Self::key_label(k.as_ref()), if okp { code } else { 777_777 }]
-            })
-            .collect();
-        qs.sort();
-        out.push(qs.len() as u64);
-        for x in qs {
-            out.extend(x);
-        }
-        out.push(st.pending_refresh as u64);
+        enc_store_dump(&d.store, &|p| self.idx(p), out);
         out.push(self.replies.len() as u64);
         for (found, peers, provs) in &self.replies {
             out.push(*found as u64);
@@ -1791,6 +1709,97 @@ impl Sys {
 
 // ------------------------------------------------------------------ running cases
 
+/// Label of a record key of the cases.
+fn key_label(k: &[u8]) -> u64 {
+    match k {
+        [a, b, 7, 7] => *a as u64 + 256 * *b as u64,
+        [250, 1, 2] => 250,
+        _ => 999,
+    }
+}
+
+/// publisher code of a record: 0 none, 1 the local peer, p + 2 peer p
+fn publisher_code(p: &Option<PeerId>, idx: &dyn Fn(&PeerId) -> u64) -> u64 {
+    match p {
+        None => 0,
+        Some(p) if *p == mk_peer(500) => 1,
+        Some(p) => match idx(p) {
+            UNKNOWN => 999,
+            i => i + 2,
+        },
+    }
+}
+
+/// The store of the loop as coq/C16/Glue.v `dump_store` writes it.
+fn enc_store_dump(st: &VerifStoreDump, idx: &dyn Fn(&PeerId) -> u64, out: &mut Vec<u64>) {
+    // the store: records, provider records per key in stored order, local_providers, refresh futures
+    let now = Instant::now();
+    let ticks = |d: Duration| (d.as_millis() as u64 + TICK_MS / 2) / TICK_MS;
+    let rel = |exp: Option<Instant>| -> [u64; 2] {
+        match exp {
+            None => [2, 0],
+            Some(t) if t <= now => [0, ticks(now - t)],
+            Some(t) => [1, ticks(t - now)],
+        }
+    };
+    let mut recs: Vec<[u64; 5]> = st
+        .records
+        .iter()
+        .map(|r| {
+            let e = rel(r.expires);
+            [
+                key_label(r.key.as_ref()),
+                r.value.first().copied().unwrap_or(0) as u64 + 256 * publisher_code(&r.publisher, idx),
+                r.value.len() as u64,
+                e[0],
+                e[1],
+            ]
+        })
+        .collect();
+    recs.sort();
+    out.push(recs.len() as u64);
+    for r in recs {
+        out.extend(r);
+    }
+    let mut pk: Vec<(u64, Vec<u64>)> = st
+        .provider_keys
+        .iter()
+        .map(|(k, ps)| {
+            let mut v = vec![ps.len() as u64];
+            for p in ps {
+                let e = rel(Some(p.expires));
+                v.extend([idx(&p.provider), p.addresses.len() as u64, e[0], e[1]]);
+            }
+            (key_label(k.as_ref()), v)
+        })
+        .collect();
+    pk.sort();
+    out.push(pk.len() as u64);
+    for (k, v) in pk {
+        out.push(k);
+        out.extend(v);
+    }
+    let mut qs: Vec<[u64; 2]> = st
+        .local_providers
+        .iter()
+        .map(|(k, p, q)| {
+            let okp = p.peer == mk_peer(500) && p.addresses.is_empty();
+            let code = match q {
+                Quorum::All => 0,
+                Quorum::One => 1,
+                Quorum::N(n) => n.get() as u64 + 1,
+            };
+            [key_label(k.as_ref()), if okp { code } else { 777_777 }]
+        })
+        .collect();
+    qs.sort();
+    out.push(qs.len() as u64);
+    for x in qs {
+        out.extend(x);
+    }
+    out.push(st.pending_refresh as u64);
+}
+
 fn runtime() -> tokio::runtime::Runtime {
     tokio::runtime::Builder::new_current_thread().enable_time().start_paused(true).build().unwrap()
 }
@@ -1798,6 +1807,9 @@ fn runtime() -> tokio::runtime::Runtime {
 /// Replays the select! events of a stored case; returns the case with fresh oracle fields and
 /// the trace.
 fn run_stored(c: &[u64]) -> Option<(Vec<u64>, Vec<u64>)> {
+    if c.first() == Some(&handle_stream::HANDLE_TAG) {
+        return handle_stream::run_stored(c);
+    }
     let (h, evs) = decode_case(c)?;
     let rt = runtime();
     // unconstrained: tokio's cooperative budget would make channel polls return Pending spuriously
@@ -2721,6 +2733,11 @@ pub fn main(args: &Args) {
                 std::fs::write(Path::new(dir).join(format!("{name}.case")), format!("# {name}\ncase: {}\n", line(&case))).unwrap();
             }
         }
+        for (name, c) in handle_stream::witnesses() {
+            if let Some((case, _)) = run_stored(&c) {
+                std::fs::write(Path::new(dir).join(format!("{name}.case")), format!("# {name}\ncase: {}\n", line(&case))).unwrap();
+            }
+        }
     }
     let stored: Vec<Vec<u64>> = match args.str("replay") {
         Some(f) => read_cases(Path::new(f)),
@@ -2746,6 +2763,10 @@ pub fn main(args: &Args) {
     let n = args.u64("cases", 100);
     let seed = args.u64("seed", 1);
     let long = args.str("tier") == Some("thorough");
+    // the KademliaHandle in front of the loop (c16_handle.rs): one case for every eight histories
+    for i in 0..(n / 8).max(1) {
+        run_one(|| handle_stream::generate(seed.wrapping_mul(1_000_003).wrapping_add(i)), &[handle_stream::HANDLE_TAG], &mut out);
+    }
     for i in 0..n {
         // every fifth history runs on an event channel of 1-3 slots
         let cap = if i % 5 == 4 { 1 + (i / 5) % 3 } else { 0 };
